@@ -1,7 +1,8 @@
 (** Concrete instances, evaluated by the kernel ([vm_compute]): one where [wiring_correct]'s
     conclusion is a non-trivial equality (two instantiations of one package sharing an implicit import,
-    an alias passed as argument, an export, names), and the two witnesses showing that the
-    side conditions of [wiring_correct] cannot be dropped for the faithful model of the current code
+    an alias passed as argument, an export, names), the witness showing that the
+    side condition of [wiring_correct] about import dedup cannot be dropped for the faithful model of the current code,
+    and the regression instance of the repaired definition-rename defect
     (both replayed on the real implementation: tools/props/c02.py W_DEF, W_DEDUP). *)
 From Coq Require Import String.
 From Coq Require Import List Arith Bool NArith.
@@ -65,14 +66,13 @@ Lemma good_instance :
             /\ encoded ops_good false <> None.
 Proof. eexists. vm_compute. repeat split; discriminate. Qed.
 
-(** finding: a definition exported under a second name *)
+(** regression instance of a repaired defect (known-findings C02/C03-def-extra-export-name): a definition
+    exported under another name is RENAMED, the export map and the encoded component agree *)
 Definition ops_def_two_names : list op := [DefineType 5%N 0; Export 0 6%N].
-Lemma def_two_names_refutes :
-  match encoded ops_def_two_names true with
-  | Some (dec, spec, dd) => dd = [] /\ dec <> spec
-  | None => False
-  end.
-Proof. vm_compute. split; [reflexivity | discriminate]. Qed.
+Lemma def_renamed_instance :
+  exports (run w_universe ops_def_two_names) = [(6%N, 0)] /\
+  exists w, encoded ops_def_two_names true = Some (w, w, []) /\ length (w_exports w) = 1.
+Proof. split; [reflexivity|]. eexists. vm_compute. split; reflexivity. Qed.
 
 (** finding: explicit import [my-t] of the interface a:b/t that is also imported implicitly *)
 Definition ops_dedup : list op := [Register 0; Instantiate (0, 0); Import 2%N 1; Export 1 6%N].
